@@ -38,12 +38,17 @@ var (
 	resume   = flag.Bool("resume", false, "continue from the checkpoint of an earlier attempt (internal)")
 	racepass = flag.Bool("racepass", false, "run the free-running bodies of C17 (race binary)")
 	c17solo  = flag.Int("c17solo", -1, "print the solo observation of C17 instance N (internal)")
+	realconf = flag.Bool("realconf", false, "run the real-runtime conformance shard (vcheck-real binary)")
 )
 
 func main() {
 	flag.Parse()
 	if *racepass {
 		checks.C17RacePass()
+		return
+	}
+	if *realconf {
+		checks.RealConformance(*worker, *of, *tier == "thorough")
 		return
 	}
 	if *c17solo >= 0 {
